@@ -1,14 +1,201 @@
-(** C15 — property theorems only (each closed by [exact] of a lemma). *)
+(** C15 — property theorems only. Each is closed by [exact] of a lemma from the Proofs*.v /
+    Bridge.v files and audited by Print Assumptions. *)
 From V.Lib Require Import Base.
 From V.Gen Require Import C15Tables.
-From V.C15 Require Import Model Spec Corr Wf Proofs.
+From V.C15 Require Import Model Spec Sem QModel QSpec Corr Wf Proofs ProofsTree ProofsVec ProofsSeq ProofsCanon Bridge
+  QProofs QProofsOps QProofsTerm.
 Local Open Scope Z_scope.
+
+(** ** Priorities *)
 
 (** The derive(Ord) order regenerated from the source is the documented priority order. *)
 Theorem C15_prio_order : forall p, prio_rank p = spec_rank p.
 Proof. exact prio_rank_spec. Qed.
 
-(** The code's [dominance] function is the documented rule [dom], for every pair of
-    priorities, both insertion sides and both force flags. *)
+(** The integer codes stored in SQLite are strictly monotone in the priority order (so the SQL
+    comparisons [priority >= :min] and [ORDER BY priority] mean the Rust order), and decoding
+    inverts encoding. *)
+Theorem C15_prio_code_monotone : forall a b, prio_rank a < prio_rank b <-> prio_code a < prio_code b.
+Proof. exact prio_code_monotone. Qed.
+Theorem C15_prio_code_roundtrip : forall p, parse_prio_code (prio_code p) = Some p.
+Proof. exact parse_prio_code_inverse. Qed.
+Theorem C15_prio_code_only : forall c p, parse_prio_code c = Some p -> c = prio_code p.
+Proof. exact parse_prio_code_only. Qed.
+
+(** The code's [dominance] function is the documented rule [dom] for every pair of
+    priorities, both insertion sides and both force flags (the side it names is the inserted
+    range's side exactly when the inserted priority wins). *)
 Theorem C15_dominance_table : forall c p on force, winner c p on force = dom c p force.
 Proof. exact dominance_table. Qed.
+
+(** ** One insertion *)
+
+(** Inserting any valid range (possibly empty) into a well-formed tree does not panic; the
+    result is weakly well-formed, well-formed if the range is non-empty, spans the hull, and
+    its priority at every height is the dominance rule applied pointwise ([ins_spec]). This is
+    insert_no_panic + insert_wf + insert_pointwise in one statement ([tdesc] unfolds to the
+    five clauses). *)
+Theorem C15_insert_spec : forall t, wf t -> forall x force, valid x ->
+  exists t', tinsert t x force = Some t' /\
+    (wwf t' /\ (nonempty x -> wf t') /\
+     span_s t' = Z.min (span_s t) (rs x) /\ span_e t' = Z.max (span_e t) (re x) /\
+     forall h, at_tree t' h = pm (ins_spec (st_of t) (rs x) (re x) (rp x) force) h).
+Proof. exact tinsert_spec. Qed.
+
+(** ** into_vec *)
+
+(** On every weakly well-formed tree (empty leaves allowed) [into_vec] does not panic and
+    returns a canonical queue — non-empty rows, each starting where the previous ends, adjacent
+    priorities distinct — with the same priority at every height as the tree, covering exactly
+    the tree's span. *)
+Theorem C15_into_vec_canonical : forall t, wwf t ->
+  exists v, into_vec t = Some v /\ canonical (map row_of v) /\
+    (forall h, rows_at (map row_of v) h = at_tree t h) /\
+    (v <> [] -> rows_lo (map row_of v) = Some (span_s t) /\ rows_hi (map row_of v) = Some (span_e t)).
+Proof. exact into_vec_spec. Qed.
+
+(** What canonical means, spelled out: rows non-empty; consecutive rows touch and differ in
+    priority; any two rows are ordered (sorted, non-overlapping). *)
+Theorem C15_canonical_nonempty : forall l, canonical l -> Forall (fun r => r_s r < r_e r) l.
+Proof. exact canonical_rows_nonempty. Qed.
+Theorem C15_canonical_adjacent : forall l, canonical l ->
+  forall l1 a b l2, l = l1 ++ a :: b :: l2 -> r_e a = r_s b /\ r_p a <> r_p b.
+Proof. exact canonical_adjacent. Qed.
+Theorem C15_canonical_ordered : forall l, canonical l ->
+  forall l1 a l2 b l3, l = l1 ++ a :: l2 ++ b :: l3 -> r_e a <= r_s b.
+Proof. exact canonical_ordered. Qed.
+
+(** ** Sequences *)
+
+(** For ALL insertion sequences of non-empty ranges into a non-empty leaf: nothing panics and
+    [into_vec] is the canonical queue whose priority at every height is the dominance rule
+    folded pointwise over the insertions (gaps Historic), covering exactly the hull. *)
+Theorem C15_queue_of_insertions : forall init ops,
+  nonempty init -> Forall (fun o => nonempty (fst o)) ops ->
+  exists t v, tinsert_all (Leaf init) ops = Some t /\ into_vec t = Some v /\
+    canonical (map row_of v) /\
+    (forall h, rows_at (map row_of v) h = pm (spec_after init ops) h) /\
+    rows_lo (map row_of v) = Some (lo (spec_after init ops)) /\
+    rows_hi (map row_of v) = Some (hi (spec_after init ops)).
+Proof. exact queue_of_insertions. Qed.
+
+(** The same when the LAST inserted range may be empty — the only way the wallet ever inserts
+    an empty range (update_chain_tip's zero-length Verify entry). *)
+Theorem C15_insert_last_may_be_empty : forall init ops x force,
+  nonempty init -> Forall (fun o => nonempty (fst o)) ops -> valid x ->
+  exists t v, tinsert_all (Leaf init) (ops ++ [(x, force)]) = Some t /\ into_vec t = Some v /\
+    canonical (map row_of v) /\
+    (forall h, rows_at (map row_of v) h = pm (spec_after init (ops ++ [(x, force)])) h).
+Proof. exact queue_of_insertions_last. Qed.
+
+(** Known finding (class 1): with an empty range that is not last, the public tree API panics. *)
+Theorem C15_insert_empty_range_refuted :
+  exists init ops, valid init /\ Forall (fun o => valid (fst o)) ops /\ tinsert_all (Leaf init) ops = None.
+Proof. exact insert_empty_range_refuted. Qed.
+
+(** ** Bridge *)
+
+(** On every case in the domain and outside the known-finding class, agreement of the
+    implementation with the model implies the property on the implementation's observations. *)
+Theorem C15_agree_implies_property : forall c, part_a c = true ->
+  wf_case c = true -> known_class c = 0%N -> run_case c = true -> prop_case c = true.
+Proof. exact agree_implies_property. Qed.
+
+(** ** Part B: the stored queue *)
+
+(** replace_queue_entries on a canonical stored queue [q] ([chain q]), for a query range that
+    selects at least one stored row ([touches]: overlapping or adjacent), with entries that lie
+    inside the query range, all non-empty except possibly the last: no panic, no constraint
+    error, the new stored queue is canonical, and its priority at every height is the dominance
+    rule folded over the entries starting from the selected rows inside the rebuilt interval
+    and unchanged outside. *)
+Theorem C15_replace_queue_entries : forall q qs qe es l force,
+  chain q -> qs <= qe -> touches q qs qe ->
+  Forall nonempty es -> valid l -> Forall (within qs qe) (es ++ [l]) ->
+  exists q', replace_queue_entries q qs qe (es ++ [l]) force = Ok q' /\ chain q' /\ q' <> [] /\
+    let S := replace_state q qs qe (es ++ [l]) force in
+    (forall h, rows_at (map row_of q') h = if in_range (lo S) (hi S) h then pm S h else rows_at (map row_of q) h) /\
+    (forall h, in_range (lo S) (hi S) h = true ->
+               rows_at (map row_of q) h = rows_at (map row_of (filter (selp qs qe) q)) h).
+Proof. exact replace_touching. Qed.
+
+(** scan_complete of a non-empty range that touches the stored queue, for every context (shard
+    metadata, discovered note positions): succeeds, keeps the queue canonical, and marks exactly
+    that range Scanned — the Scanned heights afterwards are the range plus those before. *)
+Theorem C15_scan_marks_exactly : forall c q s e sap orc iro,
+  chain q -> s < e -> touches q s e ->
+  exists q', scan_complete c q s e sap orc iro = Ok q' /\ chain q' /\
+    forall h, scanned_at q' h <-> (s <= h < e \/ scanned_at q h).
+Proof. exact scan_complete_spec. Qed.
+
+(** update_chain_tip (as repaired) never panics in building its ranges: it inserts an optional
+    non-empty ChainTip range and then one valid, possibly empty range that is never Scanned and is
+    Verify only above the max scanned height.  Guard: heights are u32 and the wallet birthday is
+    not exactly tip + 1 with shard metadata below it (then the ChainTip entry is empty and first). *)
+Theorem C15_tip_plan : forall c t, ctx_ok c t ->
+  exists p, tip_plan c t = Ok p /\
+    match p with
+    | None => True
+    | Some (qs, qe, entries) =>
+        qs <= qe /\
+        exists es l, entries = es ++ [l] /\ Forall nonempty es /\ valid l /\ Forall (within qs qe) entries /\
+          Forall (fun r => rp r = ChainTip) es /\
+          (rp l <> Scanned) /\ (rp l = Verify -> exists ms, max_scanned c = Some ms /\ ms < rs l)
+    end.
+Proof. exact tip_plan_spec. Qed.
+
+(** … and when its query touches the canonical stored queue it succeeds, keeps the queue
+    canonical, marks nothing Scanned, and un-scans nothing at or below the max scanned height. *)
+Theorem C15_update_chain_tip : forall c q t qs qe entries,
+  chain q -> ctx_ok c t -> tip_plan c t = Ok (Some (qs, qe, entries)) -> touches q qs qe ->
+  exists q', update_chain_tip c q t = Ok q' /\ chain q' /\
+    (forall h, scanned_at q' h -> scanned_at q h) /\
+    (forall h, scanned_at q h -> (forall ms, max_scanned c = Some ms -> h <= ms) -> scanned_at q' h).
+Proof. exact update_chain_tip_spec. Qed.
+
+(** Rewind: trimming keeps the queue canonical and forgets exactly the heights above. *)
+Theorem C15_trim : forall q mh, chain q -> 0 <= mh ->
+  chain (trim_scan_queue_to q mh) /\
+  forall h, rows_at (map row_of (trim_scan_queue_to q mh)) h =
+            if h <=? Z.min mh (u32_max - 1) then rows_at (map row_of q) h else None.
+Proof. exact trim_spec. Qed.
+
+(** ** Termination of the client loop *)
+
+(** Any non-empty part of a range the wallet suggests is a legal scan step: it touches the queue
+    and none of its heights is Scanned. *)
+Theorem C15_suggested_is_unscanned : forall q r s e, chain q -> In r (suggest_scan_ranges q Historic) ->
+  rs r <= s -> s < e -> e <= re r ->
+  touches q s e /\ forall h, s <= h < e -> ~ scanned_at q h.
+Proof. exact suggested_is_unscanned. Qed.
+
+(** A scan step lowers the measure (heights of the window not Scanned) by exactly the number of
+    blocks scanned; a chain-tip update leaves it unchanged. *)
+Theorem C15_scan_step_measure : forall c q s e sap orc iro q' w n,
+  chain q -> s < e -> touches q s e -> scan_complete c q s e sap orc iro = Ok q' ->
+  w <= s -> e <= w + Z.of_nat n -> (forall h, s <= h < e -> ~ scanned_at q h) ->
+  chain q' /\ unscanned q' w n = unscanned q w n - (e - s).
+Proof. exact scan_step_measure. Qed.
+
+(** Every run of the client loop inside a window of [n] heights — scan steps on unscanned
+    ranges, interleaved with any number of chain-tip updates — has at most [n] scan steps (at
+    most the number of unscanned heights it started with), and the queue stays canonical. *)
+Theorem C15_sync_terminates : forall w n q k q'', chain q -> run w n q k q'' ->
+  Z.of_nat k <= unscanned q w n /\ (k <= n)%nat.
+Proof. exact sync_terminates. Qed.
+Theorem C15_run_invariant : forall w n q k q'', chain q -> run w n q k q'' ->
+  chain q'' /\ Z.of_nat k <= unscanned q w n - unscanned q'' w n.
+Proof. exact run_measure. Qed.
+
+(** When nothing is suggested any more, every covered height is Scanned or Ignored. *)
+Theorem C15_quiescent : forall q, chain q -> suggest_scan_ranges q Historic = [] ->
+  forall h p, rows_at (map row_of q) h = Some p -> p = Scanned \/ p = Ignored.
+Proof. exact quiescent. Qed.
+
+(** non-vacuity: a concrete sequence in the theorems' domain, evaluated *)
+Example C15_example :
+  match tinsert_all (Leaf (R 1 3 Scanned)) [(R 5 7 ChainTip, false); (R 0 9 Historic, false); (R 2 6 FoundNote, true)] with
+  | Some t => into_vec t
+  | None => None
+  end = Some [R 0 1 Historic; R 1 2 Scanned; R 2 5 FoundNote; R 5 7 ChainTip; R 7 9 Historic].
+Proof. reflexivity. Qed.
